@@ -22,7 +22,8 @@ ID = "C07"
 LEVEL = "exploration"
 RULE = ("seeded configurations: product (levels 1.1/1.5/3.1, 1-4 images, random content) x producer {option, cli-adjacent, "
         "cli-into-user-dir, cli as a subprocess} x location {user dir, adjacent, both} x filesystem {local path, file://, "
-        "memory://, vfs://; CLI only for local files} x rpc at write time x rpc at read time; plus the equal-root-path-on-"
+        "memory://, vfs://, lvfs:// = a LocalFileSystem subclass with its own namespace; CLI only for local files, a third of the CLI "
+        "configurations with the image files being symbolic links into another directory} x rpc at write time x rpc at read time; plus the equal-root-path-on-"
         "two-filesystems configuration (cache key aliasing). evaluations = opens compared; non-trivial = configuration in "
         "which a cache was really produced and then used; distinct = distinct (producer, location, fs, rpc_w class, rpc_r class, level)")
 ASSUMPTIONS = ["adjacent caches exist only for local products (the tool accepts local paths only)",
@@ -103,7 +104,7 @@ def run_case(i, tier, seed):
     violations = []
     if i % 16 == 15:
         return _alias_case(i, tier, seed, rng, obs)
-    kind = harness.FS_KINDS[i % 4]
+    kind = harness.FS_KINDS[i % 5]
     local = kind in ("local", "file")
     producer = rng.choice(["option", "cli-adjacent", "cli-userdir", "cli-subprocess"]) if local else "option"
     location = {"option": "user", "cli-adjacent": "adjacent", "cli-userdir": "user", "cli-subprocess": "adjacent"}[producer]
@@ -119,11 +120,20 @@ def run_case(i, tier, seed):
     root = harness.unique_root(kind)
     url = synth.install(files, root, kind)
     local_root = root if local else None
+    linked = local and producer.startswith("cli") and rng.random() < 0.35
+    store = root + "-store"
+    if linked:
+        # archive-view layout: the image files of the product directory are symbolic links into a data store
+        os.makedirs(store, exist_ok=True)
+        for n in info["names"]["imgs"]:
+            os.replace(os.path.join(root, n), os.path.join(store, n))
+            os.symlink(os.path.join(store, n), os.path.join(root, n))
+        obs["symlinked_products"] = 1
     user_files = [cachelib.user_cache_file(url, n) for n in imgs]
     adj_files = [cachelib.adjacent_cache_file(local_root, n) for n in imgs] if local else []
     roots = tuple(r for r in (cachelib.user_cache_root(), local_root) if r)
-    sig = f"{producer}|{location}|{kind}|w:{harness.rpc_class(rpc_w, nmax)}|r:{harness.rpc_class(rpc_r, nmax)}|{level}"
-    detail = {"producer": producer, "location": location, "fs": kind, "rpc_write": rpc_w, "rpc_read": rpc_r,
+    sig = f"{producer}|{location}|{kind}{'+symlinks' if linked else ''}|w:{harness.rpc_class(rpc_w, nmax)}|r:{harness.rpc_class(rpc_r, nmax)}|{level}"
+    detail = {"producer": producer, "location": location, "fs": kind, "image_files_are_symlinks": linked, "rpc_write": rpc_w, "rpc_read": rpc_r,
               "images": list(info["images"].values()), "level": level}
     try:
         shutil.rmtree(cachelib.user_cache_root(), ignore_errors=True)
@@ -209,6 +219,7 @@ def run_case(i, tier, seed):
             violations.append({"what": f"use_cache=True without any cache differs from the uncached tree: {d[0]}", "detail": detail})
     finally:
         synth.uninstall(files, root, kind)
+        shutil.rmtree(store, ignore_errors=True)
         shutil.rmtree(cachelib.user_cache_root(), ignore_errors=True)
     for f in contracts.drain():
         violations.append({"what": f"contract {f['contract']} failed", "detail": f["detail"]})
